@@ -47,6 +47,7 @@ def parseEv : List String → Option Ev
   | ["notification"] => some .notification
   | ["badheader", k] => some (.badHeader (nat! k))
   | ["close"] => some .close
+  | ["connlost", k] => some (.connLost (nat! k))
   | ["tick", t] => some (.tick (nat! t))
   | ["enable"] => some .enable
   | ["disable"] => some .disable
@@ -75,6 +76,17 @@ def step (d : DSt) (ts : List String) : DSt × List String :=
            | none => "ok"
            | some sub => s!"2-{sub}"])
     | none => (d, ["bad-op"])
+  | "collide" :: path :: las :: lid :: pas :: r =>
+    -- two OPENs in wire form (6 tokens each): the accepted connection's, then the outgoing one's
+    match parseOpen (r.take 6), parseOpen (r.drop 6) with
+    | some inc, some out =>
+      let c : Cfg := ⟨nat! las, nat! lid, nat! pas, 0, 0, 0, 0⟩
+      let res := if path == "incoming-first" then collideIncomingFirst c inc out
+                 else collideOutgoingFirst c inc out
+      (d, [match res with
+           | .session k o => s!"session {connStr k} hold={o.hold} id={o.id}"
+           | .refused sub => s!"refused 2-{sub}"])
+    | _, _ => (d, ["bad-op"])
   | ["hdr", k] => (d, [s!"1-{hdrSub (nat! k)}"])
   | ["edge", a, b] =>
     -- b = 99 encodes the dying marker -1 (ends the loop, no transition)
